@@ -3,7 +3,7 @@
    `le == nil || le.Value() == nil` test) that was looked up in vain before resolves to its type afterwards. *)
 From Coq Require Import Arith NArith Bool List Lia.
 From PcoreV Require Import Model.Base Model.Loader Model.LoaderSpec Model.LoaderAdd Proofs.LoaderNames Proofs.LoaderProofs
-  Proofs.LoaderCorollaries Proofs.LoaderAddProofs.
+  Proofs.LoaderCorollaries Proofs.LoaderAddProofs Proofs.LoaderAddScoped.
 Import ListNotations.
 
 (* ---------------------------------------------------------------------------------------------- *)
@@ -451,7 +451,7 @@ Proof.
   destruct (exec (spec_step cfg) spec_add (@length anode) l (length (fst (xrun cfg xs))) (abs (fst (xrun cfg xs)))
               (compile (cfg_auth cfg) ts)) as [a2 o2] eqn:E2.
   injection Hs2 as Ha2 Ho2. subst o2.
-  cbn [xop_wf] in Hwa. apply andb_prop in Hwa. destruct Hwa as [_ Hsc].
+  pose proof (compile_scoped (cfg_auth cfg) ts) as Hsc.
   rewrite Hcomp in E2, Hsc. rewrite <- (abs_length (fst (xrun cfg xs))) in E2.
   assert (Hr2 : spec_resolve_top a2 l (norm n) = Some (Some v)).
   { eapply spec_addtypes_miss; eauto.
